@@ -646,6 +646,9 @@ func ccParamsEq(a rux.Params, want string) bool {
 }
 
 func (concEngine) Run(ops []string) (ans []string, oracle []string) {
+	if len(ops) == 1 && ops[0] == "timeoutmw" { // engine_conc_timeout.go
+		return []string{ccTimeoutOp()}, nil
+	}
 	cfg := ccParse(ops)
 	var rt, twin *ccRouter
 	router := func() *ccRouter {
